@@ -76,7 +76,7 @@ fn splice(bs: &[u8], from: usize, to: usize, with: &[u8]) -> Vec<u8> { let mut v
 pub const HUGE: [u64; 10] = [1 << 16, (1 << 31) - 1, 1 << 31, (1 << 32) - 1, 1 << 32, 1 << 40, (1 << 63) - 1, 1 << 63, u64::MAX - 1, u64::MAX];
 
 /// structure-aware mutations of one valid encoding; `cap` bounds the number of head-directed mutations
-pub fn mutate_cbor(seed: &[u8], rng: &mut Rng, cap: usize, out: &mut Vec<(String, Vec<u8>)>) {
+pub fn mutate_cbor(seed: &[u8], rng: &mut Rng, cap: usize, one_field: bool, out: &mut Vec<(String, Vec<u8>)>) {
     let n = seed.len();
     // truncation at every offset (every offset when short, all head boundaries + a sample otherwise)
     let heads = scan(seed).unwrap_or_default();
@@ -170,8 +170,12 @@ pub fn mutate_cbor(seed: &[u8], rng: &mut Rng, cap: usize, out: &mut Vec<(String
         let h = &heads[0];
         for k in 0..=25u8 { for e in [&[0x80u8][..], &[0xd9, 0x01, 0x02, 0x80], &[0xa0], &[0x9f, 0xff], &[0xf6]] {
             let mut v = enc_min(5, h.arg + 1); v.extend_from_slice(&seed[h.hlen..]); v.extend(enc_min(0, k as u64)); v.extend_from_slice(e); out.push(("add-field".into(), v));
-            if rng.chance(1, 4) { let mut w = vec![0xa1u8]; w.extend(enc_min(0, k as u64)); w.extend_from_slice(e); out.push(("one-field".into(), w)); }
         } }
+    }
+    // every one-field map with an empty collection (once per type: it does not depend on the seed)
+    if heads[0].major == 5 && one_field {
+        for k in 0..=25u8 { for e in [&[0x80u8][..], &[0xd9, 0x01, 0x02, 0x80], &[0xa0], &[0x9f, 0xff], &[0xf6]] {
+            let mut w = vec![0xa1u8]; w.extend(enc_min(0, k as u64)); w.extend_from_slice(e); out.push(("one-field".into(), w)); } }
     }
     // byte substitutions anywhere
     for _ in 0..8 { let mut v = seed.to_vec(); let k = rng.below(n as u64) as usize; v[k] = rng.next() as u8; out.push(("subst".into(), v)); }
@@ -322,6 +326,53 @@ pub fn mutate_json(js: &str, rng: &mut Rng, out: &mut Vec<(String, String)>) {
     for g in ["", " ", "null", "true", "[]", "{}", "0", "\"\"", "[", "{", "\"", "{\"a\"}", "[1,]", "{,}", "nan", "NaN", "Infinity", "-", "\u{feff}{}", "/**/1", "'a'", "[1 2]", "{\"a\":1,}", "\"\\", "\"\\u12\"", "1e99999", "-1e99999", "[1e-400]"] { out.push(("j-garbage".into(), g.to_string())); }
 }
 
+// ------------------------------------------------------------------------------------------------ attacker-controlled text in error paths
+/// UTF-8 texts whose multi-byte characters sit at every offset around 16 / 32 / 48 / 64 bytes (a message that quotes a
+/// key and cuts it at a byte offset must not split a character), plus short, long and all-multi-byte ones
+pub fn tricky_texts() -> Vec<String> {
+    let mut v: Vec<String> = vec!["k".into(), "é".into(), "\u{1F600}".into(), "x".repeat(200), "é".repeat(100), "\u{1F600}".repeat(50), "€".repeat(40), String::new()];
+    for b in [16usize, 32, 48, 64] { for ch in ["é", "€", "\u{1F600}"] { let w = ch.len();
+        for start in (b + 1 - w)..=b { if start == 0 { continue; }
+            let head = "a".repeat(start);
+            v.push(format!("{}{}{}", head, ch, "b".repeat(3)));                       // just past the boundary
+            v.push(format!("{}{}{}", head, ch, "b".repeat(200 - start - w)));         // 200 bytes
+        } } }
+    v
+}
+pub fn cbor_text(t: &str) -> Vec<u8> { let mut v = enc_min(3, t.len() as u64); v.extend_from_slice(t.as_bytes()); v }
+
+/// map structures with text keys / over-long values, variant arrays with a text where the index belongs
+pub fn mutate_text_paths(seed: &[u8], rng: &mut Rng, full: bool, out: &mut Vec<(String, Vec<u8>)>) {
+    let heads = match scan(seed) { Some(h) if !h.is_empty() => h, _ => return };
+    let n = seed.len();
+    let texts = tricky_texts();
+    let pick: Vec<&String> = if full { texts.iter().collect() } else { (0..24).map(|_| &texts[rng.below(texts.len() as u64) as usize]).collect() };
+    let maps: Vec<&Head> = heads.iter().filter(|h| h.major == 5 && h.ai != 31 && !h.inner && h.depth <= 2 && h.end <= n).take(4).collect();
+    for (mi, h) in maps.iter().enumerate() {
+        let body = &seed[h.off + h.hlen..h.end];
+        let keys: Vec<&String> = if mi == 0 { pick.clone() } else { pick.iter().take(8).cloned().collect() };
+        for t in keys {
+            let k = cbor_text(t);
+            // the text key as one more entry at the end / at the beginning, in the definite and the indefinite form
+            let mut a = seed[..h.off].to_vec(); a.extend(enc_min(5, h.arg + 1)); a.extend_from_slice(body); a.extend_from_slice(&k); a.push(0x00); a.extend_from_slice(&seed[h.end..]); out.push(("textkey-end".into(), a));
+            let mut b = seed[..h.off].to_vec(); b.extend(enc_min(5, h.arg + 1)); b.extend_from_slice(&k); b.push(0x00); b.extend_from_slice(body); b.extend_from_slice(&seed[h.end..]); out.push(("textkey-start".into(), b));
+            if mi == 0 { let mut c = seed[..h.off].to_vec(); c.push(0xbf); c.extend_from_slice(body); c.extend_from_slice(&k); c.push(0x00); c.push(0xff); c.extend_from_slice(&seed[h.end..]); out.push(("textkey-indef".into(), c)); }
+        }
+    }
+    // a lone text key / text item where the type starts
+    if heads[0].major == 5 || heads[0].major == 4 { for t in pick.iter().take(10) { let k = cbor_text(t);
+        let mut a = vec![0xa1u8]; a.extend_from_slice(&k); a.push(0x00); out.push(("textkey-only".into(), a));
+        let mut b = vec![0x82u8]; b.extend_from_slice(&k); b.push(0x00); out.push(("textvariant".into(), b)); } }
+    // over-long text / byte values in place of every value of the outer maps, and in place of a variant index
+    let long_vals: Vec<Vec<u8>> = vec![cbor_text(&texts[rng.below(texts.len() as u64) as usize]), cbor_text(&"z".repeat(5000)), cbor_text(&"\u{1F600}".repeat(300)),
+        { let mut v = enc_min(2, 5000); v.extend(vec![0xabu8; 5000]); v }, { let mut v = enc_min(2, 65); v.extend(rng.bytes(65)); v }];
+    let mut nv = 0;
+    for h in heads.iter().filter(|h| h.map_value && h.depth <= 3 && !h.inner && h.end <= n) { if nv >= 12 { break; } nv += 1;
+        for lv in &long_vals { out.push(("longvalue".into(), splice(seed, h.off, h.end, lv))); } }
+    if heads[0].major == 4 && heads.len() > 1 && heads[1].major == 0 && heads[1].end <= n { for t in pick.iter().take(8) {
+        out.push(("textvariant".into(), splice(seed, heads[1].off, heads[1].end, &cbor_text(t)))); } }
+}
+
 // ------------------------------------------------------------------------------------------------ case construction
 /// which further decoders a valid encoding of `ty` is also handed to (sub-types sharing the wire shape, plus neighbours)
 fn aliases(ty: &str) -> &'static [&'static str] {
@@ -335,11 +386,12 @@ fn aliases(ty: &str) -> &'static [&'static str] {
         "PlutusData" => &["ConstrPlutusData", "PlutusMap", "PlutusList", "BigInt", "Redeemer"],
         "TransactionMetadatum" => &["MetadataMap", "MetadataList", "TransactionMetadatumLabels", "Int"],
         "Transaction" => &["FixedTransaction"],
-        "TransactionBody" => &["FixedTransactionBody", "FixedTransaction.new_from_body_bytes"],
+        "TransactionBody" => &["FixedTransactionBody", "FixedTransaction.new_from_body_bytes", "FixedTransaction.new"],
         "Block" => &["FixedBlock", "VersionedBlock", "FixedVersionedBlock"],
         "TransactionOutput" => &["TransactionUnspentOutput"],
         "TransactionOutputs" => &["TransactionBodies", "FixedTransactionBodies"],
-        "TransactionWitnessSet" => &["TransactionWitnessSets"],
+        "TransactionWitnessSet" => &["FixedTxWitnessesSet", "FixedTransaction.new.wits", "TransactionWitnessSets"],
+        "AuxiliaryData" => &["FixedTransaction.new_with_auxiliary.aux"],
         "PlutusScripts" => &["PlutusScript", "PlutusScript.v2", "PlutusScript.v3", "AssetNames", "GenesisHashes", "ScriptHashes"],
         "Credentials" => &["RewardAddresses", "Committee"],
         "Costmdls" => &["CostModel", "Language"],
@@ -358,7 +410,9 @@ fn wrap_type(ty: &str, seed: &[u8]) -> Vec<(String, Vec<u8>)> {
     let arr1 = |b: &[u8]| { let mut x = vec![0x81u8]; x.extend_from_slice(b); x };
     match ty {
         "TransactionBody" => { v.push(("TransactionBodies".to_string(), arr1(seed))); v.push(("FixedTransactionBodies".to_string(), arr1(seed))); }
-        "TransactionWitnessSet" => v.push(("TransactionWitnessSets".to_string(), arr1(seed))),
+        "TransactionWitnessSet" => { v.push(("TransactionWitnessSets".to_string(), arr1(seed)));
+            let mut tx = vec![0x84u8, 0xa3, 0x00, 0xd9, 0x01, 0x02, 0x80, 0x01, 0x80, 0x02, 0x00]; tx.extend_from_slice(seed); tx.extend([0xf5, 0xf6]);
+            v.push(("FixedTransaction".to_string(), tx.clone())); v.push(("Transaction".to_string(), tx)); }
         "Block" => { let mut x = vec![0x82u8, 0x07]; x.extend_from_slice(seed); v.push(("VersionedBlock".to_string(), x.clone())); v.push(("FixedVersionedBlock".to_string(), x)); }
         "TransactionOutput" => { let mut x = vec![0x82u8, 0x82, 0x58, 0x20]; x.extend([7u8; 32]); x.push(0x01); x.extend_from_slice(seed); v.push(("TransactionUnspentOutput".to_string(), x)); }
         "PlutusData" => { let mut x = vec![0x84u8, 0x00, 0x01]; x.extend_from_slice(seed); x.extend([0x82, 0x01, 0x02]); v.push(("Redeemer".to_string(), x)); }
@@ -414,7 +468,7 @@ fn targeted(rng: &mut Rng, cases: &mut Vec<String>) {
         { let mut v = good.clone(); v[2] = 0x19; vs.push(("byron-tag".into(), v)); }
         { let mut v = good.clone(); let l = v.len(); v[l - 1] ^= 1; vs.push(("byron-crc".into(), v)); }
         // inner structure damaged, crc recomputed (so the envelope still passes)
-        let mut inner_muts: Vec<(String, Vec<u8>)> = Vec::new(); mutate_cbor(&inner, rng, 3, &mut inner_muts);
+        let mut inner_muts: Vec<(String, Vec<u8>)> = Vec::new(); mutate_cbor(&inner, rng, 3, false, &mut inner_muts);
         for (l, im) in inner_muts.into_iter().take(if k < 10 { 400 } else { 12 }) { vs.push((format!("byron-inner-{}", l), byron_envelope(&im))); }
         for (l, v) in vs {
             push(format!("raw Address {} {}", hex_or_dash(&v), l));
@@ -514,11 +568,16 @@ pub fn build_cases(model_txt: &str, rng: &mut Rng, thorough: bool, cases: &mut V
         for _ in 0..2 { let other = *rng.pick(&dec_names); cases.push(format!("dec {} {} confusion", other, hex_or_dash(seed))); }
         let mut muts = Vec::new();
         // long encodings are run as they are; the mutation stream works on the shorter ones (the model side generates every size)
-        if seed.len() <= (if thorough { 2500 } else { 700 }) { mutate_cbor(seed, rng, cap, &mut muts); }
+        if seed.len() <= (if thorough { 2500 } else { 700 }) { mutate_cbor(seed, rng, cap, ordinal == 1, &mut muts); }
+        if seed.len() <= 700 && ordinal <= 3 { mutate_text_paths(seed, rng, thorough || ordinal == 1, &mut muts); }
         for (label, m) in muts {
-            if m.len() > 6000 { continue; }
+            if m.len() > 8000 { continue; }
             cases.push(format!("dec {} {} {}", ty, hex_or_dash(&m), label));
-            if rng.chance(1, 6) { let ai = rng.below(aliases(ty).len().max(1) as u64) as usize; if let Some(a) = aliases(ty).get(ai) { cases.push(format!("dec {} {} alias-{}", a, hex_or_dash(&m), label)); } }
+            // presence combinations and text in error paths go through every entry point that shares the reader
+            let all_aliases = matches!(label.as_str(), "one-field" | "empty-field" | "add-field" | "textkey-end" | "textkey-start" | "textkey-indef" | "textkey-only" | "textvariant" | "longvalue");
+            if all_aliases { for a in aliases(ty) { cases.push(format!("dec {} {} alias-{}", a, hex_or_dash(&m), label)); }
+                for (wty, wb) in wrap_type(ty, &m) { cases.push(format!("dec {} {} wrap-{}", wty, hex_or_dash(&wb), label)); } }
+            else if rng.chance(1, 6) { let ai = rng.below(aliases(ty).len().max(1) as u64) as usize; if let Some(a) = aliases(ty).get(ai) { cases.push(format!("dec {} {} alias-{}", a, hex_or_dash(&m), label)); } }
         }
         // text entry points on the first seeds of each type
         if ordinal <= (if thorough { 6 } else { 2 }) {
